@@ -2,10 +2,10 @@
 //! implementation and compares each transition with the spec.  Also the report / evidence /
 //! replay plumbing shared by every check binary.
 
-use crate::json::J;
-use crate::sets::Tier;
-use crate::spec::{Ctx, SpecFn};
-use crate::znum::*;
+use refmodel::json::J;
+use refmodel::sets::Tier;
+use refmodel::spec::{Ctx, SpecFn};
+use refmodel::znum::*;
 use std::collections::{BTreeMap, HashSet};
 use std::panic::{catch_unwind, AssertUnwindSafe};
 use std::sync::Mutex;
@@ -101,6 +101,9 @@ pub struct Op<T, Z: ZNum> {
     pub spec: SpecFn<Z>,
     /// expected panics are part of the property's statement (otherwise such states are skipped)
     pub pscope: bool,
+    /// panics often (a Rust panic costs microseconds): on plans with `heavy_b_limit` such an
+    /// operation is explored against the first `heavy_b_limit` values of the second register only
+    pub heavy: bool,
 }
 
 pub struct Plan<T> {
@@ -109,6 +112,7 @@ pub struct Plan<T> {
     pub b: Vec<T>,
     pub c: Vec<T>,
     pub aux: BTreeMap<Aux, Vec<u64>>,
+    pub heavy_b_limit: usize,
 }
 
 impl<T: Subj> Plan<T> {
@@ -117,7 +121,11 @@ impl<T: Subj> Plan<T> {
         let mut aux = BTreeMap::new();
         aux.insert(Aux::None, vec![0]);
         aux.insert(Aux::Bool, vec![0, 1]);
-        Plan { label: label.to_string(), a: cv(a), b: cv(b), c: cv(c), aux }
+        Plan { label: label.to_string(), a: cv(a), b: cv(b), c: cv(c), aux, heavy_b_limit: usize::MAX }
+    }
+    pub fn with_heavy_limit(mut self, n: usize) -> Self {
+        self.heavy_b_limit = n;
+        self
     }
     pub fn with_aux(mut self, k: Aux, v: Vec<u64>) -> Self {
         self.aux.insert(k, v);
@@ -393,7 +401,7 @@ impl Run {
                     let mut st: Vec<OpStat> = vec![OpStat::default(); ops.len()];
                     let mut viols: Vec<Violation> = Vec::new();
                     let mut capped = false;
-                    let mut step = |oi: usize, regs: &[T; 3], ctx: &Ctx<Z>, st: &mut Vec<OpStat>, viols: &mut Vec<Violation>| {
+                    let step = |oi: usize, regs: &[T; 3], ctx: &Ctx<Z>, st: &mut Vec<OpStat>, viols: &mut Vec<Violation>| {
                         let op = &ops[oi];
                         let e = (op.spec)(ctx);
                         let s = &mut st[oi];
@@ -476,6 +484,9 @@ impl Run {
                                 let mut regs = [a, *b, dummy];
                                 let mut ctx = Ctx::new(ti, [&za, &zb[bi], &zdummy], 0, debug);
                                 for &oi in &ops2 {
+                                    if ops[oi].heavy && bi >= plan.heavy_b_limit {
+                                        continue;
+                                    }
                                     for &x in auxv(ops[oi].aux) {
                                         ctx.aux = x;
                                         step(oi, &regs, &ctx, &mut st, &mut viols);
@@ -671,7 +682,7 @@ impl Run {
             ("property_id", J::s(&self.property)),
             ("profile", J::s(&self.profile_name())),
             ("tier", J::s(if self.tier == Tier::Quick { "quick" } else { "thorough" })),
-            ("seed", J::n(crate::sets::seed())),
+            ("seed", J::n(refmodel::sets::seed())),
             ("debug_assertions", J::Bool(self.debug)),
             ("states", J::n(states)),
             ("transitions", J::n(transitions)),
@@ -796,13 +807,22 @@ pub fn oord<Z: ZNum>(x: Option<std::cmp::Ordering>) -> Obs<Z> {
 #[macro_export]
 macro_rules! op {
     ($name:expr, $arity:expr, $aux:expr, $spec:path, |$r:ident, $x:ident| $body:expr) => {
-        $crate::Op { name: $name, arity: $arity, aux: $aux, f: |$r, $x| $body, spec: $spec, pscope: true }
+        $crate::engine::Op { name: $name, arity: $arity, aux: $aux, f: |$r, $x| $body, spec: $spec, pscope: true, heavy: false }
     };
 }
 /// Same, but expected panics are outside the property's statement (such states are skipped)
 #[macro_export]
 macro_rules! opn {
     ($name:expr, $arity:expr, $aux:expr, $spec:path, |$r:ident, $x:ident| $body:expr) => {
-        $crate::Op { name: $name, arity: $arity, aux: $aux, f: |$r, $x| $body, spec: $spec, pscope: false }
+        $crate::engine::Op { name: $name, arity: $arity, aux: $aux, f: |$r, $x| $body, spec: $spec, pscope: false, heavy: false }
+    };
+}
+
+/// Same as op!, for operations that panic on a large share of states (strict_* forms, operators
+/// in debug builds): explored against a bounded second-register set on the very large plans.
+#[macro_export]
+macro_rules! oph {
+    ($name:expr, $arity:expr, $aux:expr, $spec:path, |$r:ident, $x:ident| $body:expr) => {
+        $crate::engine::Op { name: $name, arity: $arity, aux: $aux, f: |$r, $x| $body, spec: $spec, pscope: true, heavy: true }
     };
 }
